@@ -382,9 +382,12 @@ func genC16Commit(t *rapid.T) c16Commit {
 	}
 }
 
-func runC16Commit(c c16Commit) ev.Outcome {
-	out := ev.Outcome{Label: fmt.Sprintf("commit edit=%s n=%d", c.Edit, len(c.Secrets)), Nontrivial: c.Edit != "none"}
+func runC16Commit(c c16Commit) (out ev.Outcome) {
+	out = ev.Outcome{Label: fmt.Sprintf("commit edit=%s n=%d", c.Edit, len(c.Secrets)), Nontrivial: c.Edit != "none"}
 	secrets := bigs(c.Secrets)
+	var watch bigWatch
+	defer func() { watch.finish(&out, "commitment") }()
+	watch.add("secret", secrets...)
 	cd := cmt.NewHashCommitmentWithRandomness(c.R.Big(), secrets...)
 	if !cd.Verify() {
 		out.Err, out.Sig = fmt.Errorf("honest commitment does not verify"), "honest-verify"
